@@ -168,6 +168,14 @@ let c18_monitors (timpl : table) (hist : ((n * n) * n) list) (o : op) (t' : tabl
   chk "record-downgrade" (pol_record_b t o t') @
   chk "live-after-endpoint-change" (pol_endpoint_b t o t') @
   chk "credit-lost-after-answered-ping" (pol_credit_b t o t') @
+  (* converse for liveness (C18_failed_check_divides_credit): a failed answer must cost credit *)
+  (let detail = match failed_target t o with
+     | Some e -> Printf.sprintf " credit-before=%d expected=%d got=%s" (int_of_n e.checks) (int_of_n e.checks / 3)
+                   (match List.concat_map (fun b -> List.filter (fun x -> x.nd.nid = e.nd.nid) b.ents) t'.bks with
+                    | x :: _ -> string_of_int (int_of_n x.checks) | [] -> "gone")
+     | None -> "" in
+   (if pol_failed_credit_b t o t' then [] else ["credit-not-reduced-after-failed-check " ^ where ^ detail]) @
+   (if pol_failed_gone_b t o t' then [] else ["entry-kept-after-credit-exhausted " ^ where ^ detail])) @
   (* converse of the leave rule (C18_entry_leaves_if), again with the history-derived consecutive count *)
   (if pol_kept_b t o t' then []
    else ["entry-kept-despite-cause " ^ where ^
